@@ -170,6 +170,15 @@ def run_kitti(F, n, mode, wkind, rkind, wd):
                      "KITTI pose matrices")
 
 
+# text values of a result's info (names derived from file names: anything a
+# file name can hold, including bytes that are not valid UTF-8, which Python
+# represents as lone surrogates)
+INFO_STRS = [
+    "ëst/é.txt", os.fsdecode(b"est_caf\xe9.txt"), "", "tab\there \"q\" \\",
+    "\U0001F600 astral", "nul\x00ctl\x1f", "\ud800 lone high", "x" * 300,
+]
+
+
 def run_result(F, n, with_traj, kind, wd, variant):
     from evo.core.result import Result
     from evo.tools import file_interface as fi
@@ -179,7 +188,9 @@ def run_result(F, n, with_traj, kind, wd, variant):
                  "min": vals[3], "max": vals[4], "sse": vals[5],
                  "median": float(np.float64(vals[6]))})
     r.add_info({"title": "APE w.r.t. translation part (m)\n(ünïcödé ✓ 測試)",
-                "label": "APE (m)", "est_name": "ëst/é.txt", "value": vals[7],
+                "label": "APE (m)",
+                "est_name": INFO_STRS[variant % len(INFO_STRS)],
+                "value": vals[7],
                 "ref_name": "ref"})
     L = latin(F, n, 2, stride=5)
     r.add_np_array("error_array", L[:, 0].copy())
